@@ -121,8 +121,35 @@ func evalC13(k c13Case) []pbt.Violation {
 				}
 			}
 		}
+		// the same flags may also name ONE directory for every target: three more processes
+		var shared map[string][]byte
+		for i := 0; i < 3; i++ {
+			tree, r := compileShared(k.Text, inproc.Langs)
+			if r.Exit != 0 {
+				return []pbt.Violation{{External: true, Signature: "cli-fails-where-library-succeeds", Detail: fmt.Sprintf("shared directory, exit %d: %s", r.Exit, clip(string(r.Stdout)+string(r.Stderr), 300))}}
+			}
+			if shared == nil {
+				shared = tree
+			} else if d := inproc.FilesEqual(shared, tree); d != "" {
+				return []pbt.Violation{{Signature: "nondeterministic:shared-directory", Detail: "two CLI processes writing all targets into one directory differ: " + d}}
+			}
+		}
 	}
 	return nil
+}
+
+// compileShared runs the built CLI with every output flag naming the same directory.
+func compileShared(text string, langs []string) (map[string][]byte, cli.Result) {
+	dir := cli.Scratch("shared")
+	defer os.RemoveAll(dir)
+	in := filepath.Join(dir, "in.dsl")
+	_ = os.WriteFile(in, []byte(text), 0o644)
+	args := []string{"compile", "-f", in}
+	for _, l := range langs {
+		args = append(args, cli.Flags[l], filepath.Join(dir, "all"))
+	}
+	r := cli.Run(dir, 60*time.Second, nil, nil, cli.Bin(), args...)
+	return cli.ReadTree(filepath.Join(dir, "all")), r
 }
 
 // fileClass keeps only the kind of file from a FilesEqual message.
@@ -166,7 +193,7 @@ func mapRich(p *dsl.Program) bool {
 
 // genMapRich biases the generator towards the shapes C13 names.
 func genMapRich(rt *rapid.T, avoid map[string]bool) *dsl.Program {
-	p := dsl.GenProgram(rt, dsl.GenCfg{MinPackets: 3, MaxPackets: 7, MaxFields: 7, WantMatch: true, Avoid: avoid, Shapes: true, AnyOrder: true})
+	p := dsl.GenProgram(rt, dsl.GenCfg{MinPackets: 3, MaxPackets: 7, MaxFields: 7, WantMatch: true, Avoid: avoid, Shapes: true, AnyOrder: true, KeywordNames: true})
 	// add a second match field to some packet when possible
 	if rapid.Bool().Draw(rt, "second_match") {
 		dsl.AddSecondMatch(rt, p)
@@ -360,7 +387,7 @@ func TestC14(t *testing.T) {
 	})
 	n := 0
 	c.Check(t, func(rt *rapid.T) {
-		p := dsl.GenProgram(rt, dsl.GenCfg{MaxPackets: 4, Avoid: avoid, Shapes: true, AnyOrder: true})
+		p := dsl.GenProgram(rt, dsl.GenCfg{MaxPackets: 4, Avoid: avoid, Shapes: true, AnyOrder: true, KeywordNames: true})
 		hist := rapid.SliceOfN(rapid.SampledFrom(inproc.Langs), 2, 12).Draw(rt, "history")
 		k := c14Case{Text: dsl.PlainText(p), History: hist}
 		n++
@@ -461,7 +488,7 @@ func TestC08(t *testing.T) {
 	})
 	kinds := []string{"alias", "dyn", "zchar", "defpad", "padarg", "attrplace", "defopt", "expand", "aslist", "via", "semi", "paircomma"}
 	c.Check(t, func(rt *rapid.T) {
-		p := dsl.GenProgram(rt, dsl.GenCfg{MaxPackets: 4, Docs: true, Avoid: avoid, Shapes: true, AnyOrder: true, MetaShare: rapid.IntRange(0, 3).Draw(rt, "metashare") == 0})
+		p := dsl.GenProgram(rt, dsl.GenCfg{MaxPackets: 4, Docs: true, Avoid: avoid, Shapes: true, AnyOrder: true, KeywordNames: true, MetaShare: rapid.IntRange(0, 3).Draw(rt, "metashare") == 0})
 		ua, ub := map[string]int{}, map[string]int{}
 		var only string
 		if rapid.Bool().Draw(rt, "single_kind") {
